@@ -76,10 +76,10 @@ pub fn c08(sk: &Skeleton) -> Leaf {
             expect_loader_err = true;
         }
         let mut rates = Vec::new();
-        for r in o["rates"].as_array().cloned().unwrap_or_default() {
+        for (j, r) in o["rates"].as_array().cloned().unwrap_or_default().iter().enumerate() {
             let code = r[0].as_str().unwrap_or("USD").to_string();
             let kind = r[1].as_str().unwrap_or("sym");
-            let v = vx::fresh(&format!("rate{i}{code}"));
+            let v = vx::fresh(&format!("rate{i}_{j}{code}"));
             if kind == "free" {
                 free_sign.push(v); // the solver chooses the sign: a non-positive rate must be rejected by the loader
             } else {
